@@ -1148,6 +1148,69 @@ def apply_native_table(w):
     return na, rows
 
 
+def apply_native_builtin_table(w):
+    """the builtin `apply` handed a REAL builtin procedure of two fixed parameters and a list of 1, 2, 3 elements: is the builtin's body
+    entered, and with how many arguments?  (Bodies take their arguments with next().unwrap(): a body entered with fewer than its fixed
+    parameters panics.)  rows: (n, dict)"""
+    na = w.fb.find("interpreter::library::native::base::apply")
+
+    def vlist(items):
+        e0 = w.named(w.gp, "Empty", [])
+        e0.adt = "parser::pair::GenericPair"
+        v = w.named(w.val, "Pair", [e0])
+        v.adt = "values::Value"
+        for x in reversed(items):
+            c = w.named(w.gp, "Some", [x, v])
+            c.adt = "parser::pair::GenericPair"
+            v = w.named(w.val, "Pair", [c])
+            v.adt = "values::Value"
+        return v
+    rows = []
+    for n in (1, 2, 3):
+        body = Tok("body", "builtin-body")
+        P = w.named(w.proc, "Builtin", [[Tok("name", "builtin-name"), w.formals(["x", "y"]), body]])
+        P.adt = "values::Procedure"
+        Ls = [Tok("arg", "L%d" % i) for i in range(1, n + 1)]
+        first = w.procedure_value(P)
+        first.adt = "values::Value"
+        env = Frame(None, "caller-env")
+        r = Run(w)
+        try:
+            res = r.run(na, [[first, vlist(Ls)], env])
+        except (absint.Stuck, absint.Loop) as e:
+            rows.append((n, {"stuck": str(e)}))
+            continue
+        rows.append((n, {"result": res, "through_apply_procedure": [e for e in r.events if e[0] == "apply"],
+                         "body_entered": [e for e in r.events if e[0] == "apply-builtin"], "Ls": Ls,
+                         "panics": [e for e in r.mc.events if e[0] == "panic"]}))
+    return na, rows
+
+
+def native_apply_entry(fb):
+    """-> (verdict, why): True when `apply` never enters a builtin's body with an argument count its parameters do not allow (it goes
+    through apply_procedure, or checks the count itself), False when it does, None when the table could not be followed"""
+    t = tables(fb)
+    try:
+        if "apply-native-builtin" not in t:
+            t["apply-native-builtin"] = apply_native_builtin_table(t["w"])
+        na, rows = t["apply-native-builtin"]
+    except mir.AnchorMissing as e:
+        return None, str(e)
+    for n, d in rows:
+        if "stuck" in d:
+            return None, "apply on a builtin and a list of %d: %s" % (n, d["stuck"])
+        if d["panics"]:
+            return False, "apply on a builtin of two parameters and a list of %d element(s) reaches a panic (%s)" % (n, d["panics"][0][1])
+        for e in d["body_entered"]:
+            got = e[2] if len(e) > 2 else None
+            if n != 2 or not (isinstance(got, list) and len(got) == 2 and all(x is y for x, y in zip(got, d["Ls"]))):
+                return False, "apply on a builtin of two parameters and a list of %d element(s) enters the builtin's body with %s" % (
+                    n, ("%d argument(s)" % len(got)) if isinstance(got, list) else "arguments that are not the list's elements")
+        if n == 2 and not d["body_entered"] and not d["through_apply_procedure"]:
+            return False, "apply on a builtin and a list of as many elements as it has parameters applies nothing"
+    return True, "apply on a builtin of two parameters and a list of 1 / 2 / 3 elements enters the body only with two arguments"
+
+
 def rule_apply_native(ctx, rule):
     fb = ctx.fb()
     t = tables(fb)
@@ -1635,7 +1698,7 @@ def vector_table(w):
     for name in ("vector_ref", "vector_set"):
         f = fb.find("interpreter::library::native::base::" + name)
         for mutable in (True, False):
-            for k in (-1, 0, 1, 2, "equal"):
+            for k in (-1, 0, 1, 2, 3, 2147483647, -2147483648, "equal"):
                 e0, e1, newv = Tok("element", "e0"), Tok("element", "e1"), Tok("value", "new")
                 if k == "equal":
                     # the value stored is EQUAL to what the slot holds (same number) but a different object: the store still has to
@@ -1908,6 +1971,27 @@ def rule_vector(ctx, rule):
     return decided
 
 
+def vector_access_is_safe(fb, name):
+    """do the rows of the vector table for `name` (vector_ref / vector_set: a 2-element vector with the indices -2^31, -1, 0, 1, 2 = length,
+    3, 2^31-1, mutable and literal) all complete, out-of-range ones with Err(VectorIndexOutOfBounds) — or the refusal of a literal —
+    and none reaching a panic?  True / False / None (a row could not be followed)"""
+    t = tables(fb)
+    if "vector" not in t:
+        t["vector"] = vector_table(t["w"])
+    seen = False
+    for (nm, mutable, k, eq_row), d in t["vector"]:
+        if nm != name:
+            continue
+        seen = True
+        if "stuck" in d:
+            return None
+        if d["panics"]:
+            return False
+        if k not in (0, 1) and not (_err_kind(d["result"], "VectorIndexOutOfBounds") or (not mutable and _err_kind(d["result"], "RequiresMutable"))):
+            return False
+    return True if seen else None
+
+
 def application_is_sound(fb):
     """(all 12 application rows decided, arity verdicts as R7RS requires, no panic met) and the functions the rows went through"""
     t = tables(fb)
@@ -1946,10 +2030,17 @@ def conditional_table(w, f):
         for has_alt in (True, False, "arm-same-text-as-test"):
             env = Frame(None, "env")
             T, C, A = w.sym("T"), w.sym("C"), w.sym("A")
-            if has_alt == "arm-same-text-as-test":
-                C, A = (w.sym("T"), A) if truth else (C, w.sym("T"))
+            same = has_alt == "arm-same-text-as-test"
+            if same:
+                # (a call, not a variable: a variable read twice is the same value, a call made twice is two calls)
+                import copy as _copy
+                T = w.call(w.sym("TF"), [])
+                # (another object with the same text; its positions are given the same numbers, so that an evaluator comparing the two
+                # forms finds them equal whether or not its comparison looks at positions)
+                twin_ = _copy.deepcopy(T)
+                C, A = (twin_, A) if truth else (C, twin_)
             expr = w.cond(T, C, A if has_alt else None)
-            r = Run(w, truths={"T": truth})
+            r = Run(w, truths={"T": truth, "call:TF": truth}, stub_eval_all=same)
             try:
                 res = r.run(f, [expr, env])
             except (absint.Stuck, absint.Loop) as e:
@@ -1957,7 +2048,15 @@ def conditional_table(w, f):
                 continue
             # (a test that is a plain variable may be looked up in place instead of going through eval_expression: the same thing)
             evs = [(("eval", "T") if e[0] == "get" else (e[0], e[1])) for e in r.events if e[0] in ("eval", "tail") or (e[0] == "get" and e[2] == "T")]
-            rows.append(((truth, has_alt), {"result": res, "events": evs, "as_boolean": ("as_boolean", "T") in r.events,
+            if same:
+                # the arm of the tail evaluator is a call: it comes back as a pending call (of the arm's own operator expression)
+                arm = C if truth else A
+                pend = [x for x in find_enum(res, "TailCall")]
+                evs = [("eval", "T") if e == ("eval", "call:TF") and i == 0 else (e[0], "T") if e[1] == "call:TF" else e for i, e in enumerate(evs)]
+                if pend and contains(pend[0], lambda x: x is arm[0].fields[0]):
+                    evs.append(("tail", "T"))
+            rows.append(((truth, has_alt), {"result": res, "events": evs, "as_boolean": ("as_boolean", "T") in r.events or ("as_boolean", "call:TF") in r.events,
+                                            "pending_arm": same and bool(find_enum(res, "TailCall")),
                                             "envs_ok": all(e[2] is env for e in r.events if e[0] in ("eval", "tail")) and
                                             all(e[1] is env for e in r.events if e[0] == "get")}))
     return rows
@@ -2029,7 +2128,7 @@ def rule_conditional(ctx, rule, f):
         form = "(if T C%s)" % (" A" if has_alt else "")
         if same:
             want_arm = "T"
-            form = "(if T T A)" if truth else "(if T C T)"
+            form = "(if (T) (T) A)" if truth else "(if (T) C (T))"
         checks = [
             (bool(evs) and evs[0] == ("eval", "T") and d["as_boolean"], "the test of %s is not evaluated first, once, and judged by as_boolean "
              "(evaluations %s)" % (form, evs)),
@@ -2037,7 +2136,10 @@ def rule_conditional(ctx, rule, f):
                 truth, arms or "nothing", form, [want_arm] if want_arm else "nothing")),
             (d["envs_ok"], "a sub-form of %s is evaluated in another environment" % form),
         ]
-        if want_arm:
+        if same:
+            checks.append((d.get("pending_arm") or contains(res, lambda x: isinstance(x, Tok) and x.kind == "value-of" and x.tag == "call:TF"),
+                           "the value of %s with a %s test is %r, expected the value of (or the pending call of) the second (T)" % (form, truth, res)))
+        elif want_arm:
             checks.append((contains(res, lambda x: isinstance(x, Tok) and x.tag == want_arm) and
                            not contains(res, lambda x: isinstance(x, Tok) and x.kind == "value-of" and x.tag != want_arm),
                            "the value of %s with a %s test is %r, expected the value of %s" % (form, truth, res, want_arm)))
